@@ -273,7 +273,11 @@ Inductive label :=
 | LShutBegin                        (* Shutdown(): _shuttingDown = true *)
 | LShutSwap                         (* ShutdownThreadsInTableWithoutDeadlocking: the SwapContents section *)
 | LShutJoin                         (* ShutdownInternalThread() of the next swapped-out thread returns *)
-| LShutEnd.                         (* final section *)
+| LShutEnd                          (* final section *)
+| LSubmitStale (c : client) (m : msg).
+                                    (* client->SendMessageToThreadPool(m) whose unsynchronised test of _threadPool was made before a
+                                       concurrent Shutdown() cleared the pointer: the pool's critical section runs after Shutdown()'s
+                                       final section (seen under the controlled scheduler; it answers B_BAD_ARGUMENT) *)
 
 Definition in_unreg (s : st) (c : client) : bool :=
   match tget c (s_unreg s) with Some _ => true | None => false end.
@@ -359,6 +363,13 @@ Definition step (s : st) (l : label) : option (st * list event) :=
     | SdJoinActive [] false => Some (shut_end s)
     | _ => None
     end
+  | LSubmitStale c m =>
+    if in_unreg s c then None
+    else if lmem c (s_cl s) then None
+    else match s_sd s with
+         | SdDone => let (s', r) := pool_send s c m in Some (s', [ESubmit c m r])
+         | _ => None
+         end
   end.
 
 (* a run: labels applied from left to right; None when some label was not enabled *)
